@@ -511,17 +511,21 @@ fn gen_part3(thorough: bool, rng: &mut Rng, out: &mut dyn FnMut(String)) {
     out(seq(&[format!("n rot90 {} 1 0,2", g(&[3, 400_001])), format!("n roll {} 1 2", g(&[3, 400_001])), format!("n rot90 {} 1 0,1", g(&[3, 400_001]))]));
     if thorough {
         let mut giants = giant_shapes();
-        giants.extend([vec![1024, 1025], vec![1025, 1024], vec![1024, 1024], vec![1088, 1000], vec![2050, 520], vec![100, 10_486], vec![10_486, 100], vec![63, 16_645], vec![1449, 1451], vec![70, 15_000], vec![15_000, 70], vec![64, 16_385], vec![16_500, 64], vec![128, 8192], vec![40, 2, 13_110], vec![1, 1_048_577], vec![1_048_583, 1],
+        giants.extend([vec![1024, 1025], vec![1025, 1024], vec![1024, 1024], vec![1088, 1000], vec![2050, 520], vec![100, 10_486], vec![10_486, 100], vec![63, 16_645], vec![130, 8100], vec![8100, 130], vec![200, 5250], vec![5250, 200], vec![257, 4100], vec![4100, 257], vec![1449, 1451], vec![70, 15_000], vec![15_000, 70], vec![64, 16_385], vec![16_500, 64], vec![128, 8192], vec![40, 2, 13_110], vec![1, 1_048_577], vec![1_048_583, 1],
                        vec![128, 128, 64], vec![128, 65, 128], vec![4, 3, 5, 17_477], vec![33, 32, 31, 33], vec![2, 2, 2, 131_073], vec![16, 65, 16, 64], vec![3, 5, 7, 11, 13, 73]]);
-        let lim = 9000usize;
+        // blocks x elements decides: 1031 blocks of 10^6 elements cost 1 s per call (measured), and every giant line has to stay below
+        // 2 s (a twentieth of the hang watchdog): near-square matrices only get the flat operations, matrices with both extents
+        // above 64 and at most 260 rows / columns get the quarter turns
+        let lim = 260usize;
         for (q, s) in giants.iter().enumerate() {
             let a = g(s); let nd = s.len(); let n: usize = s.iter().product(); let ni = n as isize;
-            out(format!("n flip {a} none")); out(format!("n roll {a} {} none", ni / 2 + 1)); out(format!("n roll {a} -1 none")); out(format!("n roll {a} 3,4 none"));
+            out(format!("n flip {a} none")); out(format!("n roll {a} {} none", ni / 2 + 1)); if q % 2 == 0 { out(format!("n roll {a} -1 none")); } else { out(format!("n roll {a} 3,4 none")); }
+
             if nd == 1 { out(format!("n roll {a} 65 0")); out(format!("n roll {a} {} -1", -(ni + 63))); continue; }
             let ok: Vec<bool> = (0..nd).map(|i| cut_cost(s, i) <= lim).collect();
             for i in 0..nd { if ok[i] { let d = s[i] as isize;
                 out(format!("n flip {a} {}", spell(i, nd, (i + q) % 2 == 1)));
-                out(format!("n roll {a} 1 {}", spell(i, nd, (i + q) % 2 == 0))); out(format!("n roll {a} {} {i}", -(d / 2) - d));
+                if (i + q) % 2 == 0 { out(format!("n roll {a} 1 {}", spell(i, nd, q % 2 == 0))); } else { out(format!("n roll {a} {} {i}", -(d / 2) - d)); }
             } }
             if ok[0] { out(format!("n flipud {a}")); } if ok[1] { out(format!("n fliplr {a}")); }
             let good: Vec<isize> = (0..nd).rev().filter(|&i| ok[i]).map(|i| spell(i, nd, i % 2 == 0)).collect();
@@ -668,6 +672,9 @@ fn plain_i64(op: &str, args: &[&str]) -> Option<String> {
 
 static IMAGE_RUNS: AtomicUsize = AtomicUsize::new(0);
 static GIANT_RUNS: AtomicUsize = AtomicUsize::new(0);
+/// wall time spent in the part-3 streams (milliseconds), shown in the `oracle_report` lines
+static IMAGE_MS: AtomicUsize = AtomicUsize::new(0);
+static GIANT_MS: AtomicUsize = AtomicUsize::new(0);
 
 /// a user element type whose `==` is the coarsest equivalence (always true): ALL arrays of it are "all elements equal but not
 /// identical"; the harness compares the payload
@@ -737,6 +744,12 @@ fn image_pair<T: ArrayElement>(name: &str, shape: &[usize], tags: &[i64], want: 
 /// The truth is the plain i64 run of the same call, which the caller compares with the model.
 fn images(op: &str, args: &[&str], level: usize) -> Option<String> {
     if level == 0 { return None; }
+    let t0 = std::time::Instant::now();
+    let r = images_at(op, args, level);
+    IMAGE_MS.fetch_add(t0.elapsed().as_micros() as usize, Ordering::Relaxed);
+    r
+}
+fn images_at(op: &str, args: &[&str], level: usize) -> Option<String> {
     let (shape, tags) = parse_arr_raw(args.first()?);
     let ri = match std::panic::catch_unwind(std::panic::AssertUnwindSafe(|| call_op(&Array::new(tags.clone(), shape.clone()).expect("harness: array literal"), op, args, false))) { Ok(Some(r)) => r, _ => return None };
     let want: Result<(Vec<usize>, Vec<i64>), ()> = match &ri { Ok(a) => Ok((a.get_shape().unwrap(), a.get_elements().unwrap())), Err(_) => Err(()) };
@@ -772,6 +785,12 @@ fn giant_image<T: ArrayElement>(shape: &[usize], from: impl Fn(i64) -> T) -> Arr
 /// chosen by the case line (u8 on `Ok(array)` / 12-byte tuples / all-zero f64 with both signs on `Ok(array)` / 3-byte tuples on
 /// `Ok(array)` / AllEq).
 fn exec_giant(op: &str, args: &[&str]) -> Option<Verdict> {
+    let t0 = std::time::Instant::now();
+    let r = exec_giant_at(op, args);
+    GIANT_MS.fetch_add(t0.elapsed().as_micros() as usize, Ordering::Relaxed);
+    r
+}
+fn exec_giant_at(op: &str, args: &[&str]) -> Option<Verdict> {
     let shape = parse_usize_list(args.first()?.strip_prefix("iota:")?);
     let n: usize = shape.iter().product();
     let want: Result<(Vec<usize>, Vec<i64>), ()> = match oracle_on(shape.clone(), (0..n as i64).collect(), op, args)? { Some(w) => Ok(w), None => Err(()) };
@@ -815,11 +834,11 @@ fn exec_call(op: &str, args: &[&str], expected: &str, full: bool) -> Option<Verd
         }
     }
     let v = compare_default(obs, expected);
-    // part 3: the value-relation and layout images of the case (all of them on `v` lines, on one case in four up to 100 elements and
-    // one in 16 up to 600; the two cheapest on all other cases up to 100 elements, one in four up to 600, one in eight up to 5000)
+    // part 3: the value-relation and layout images of the case (all of them on `v` lines, on one case in 16 up to 100 elements and
+    // one in 32 up to 600; the two cheapest on a further case in four up to 100 elements, one in eight up to 600, one in 32 up to 5000)
     if let Verdict::Match(o) = &v {
         let (n, h) = (elems_of(args), fnv(&format!("{op} {}", args.join(" "))));
-        let level = if full { 2 } else if n <= 100 { if h % 4 == 0 { 2 } else { 1 } } else if n <= 600 { if h % 16 == 0 { 2 } else if h % 4 == 1 { 1 } else { 0 } } else if n <= 5000 && h % 8 == 0 { 1 } else { 0 };
+        let level = if full { 2 } else if n <= 100 { if h % 16 == 0 { 2 } else if h % 4 == 1 { 1 } else { 0 } } else if n <= 600 { if h % 32 == 0 { 2 } else if h % 8 == 1 { 1 } else { 0 } } else if n <= 5000 && h % 32 == 0 { 1 } else { 0 };
         if let Some(d) = images(op, args, level) { return Some(Verdict::Mismatch { observed: o.clone(), detail: format!("IMAGE-DIVERGENCE {d}") }); }
     }
     Some(v)
@@ -834,8 +853,8 @@ fn exec_native(args: &[&str], expected: &str) -> Option<Verdict> {
     ORACLE_ONLY.fetch_add(1, Ordering::Relaxed);
     let obs = run_call(op, rest, false)?;
     if obs == want || (class_of(&obs) == "err" && want == "err") {
-        // part 3: one line in eight also runs the two cheapest value-relation images (all-zero f64 with one -0.0, AllEq)
-        if fnv(&args.join(" ")) % 8 == 0 { if let Some(d) = images(op, rest, 1) { return Some(Verdict::Mismatch { observed: truncate(&obs, 300), detail: format!("IMAGE-DIVERGENCE {d}") }); } }
+        // part 3: one line in 16 also runs the two cheapest value-relation images (all-zero f64 with one -0.0, AllEq)
+        if fnv(&args.join(" ")) % 16 == 0 { if let Some(d) = images(op, rest, 1) { return Some(Verdict::Mismatch { observed: truncate(&obs, 300), detail: format!("IMAGE-DIVERGENCE {d}") }); } }
         return Some(Verdict::Match(format!("ok native ({} bytes as the harness-native reference)", obs.len())));
     }
     Some(Verdict::Mismatch { detail: format!("differs from the harness-native coordinate reference: {}; reference `{}`", diff_detail(&obs, &want), truncate(&want, 300)), observed: truncate(&obs, 1500) })
@@ -854,8 +873,9 @@ fn exec(op: &str, args: &[&str], expected: &str) -> Option<Verdict> {
 fn exec_line(op: &str, args: &[&str], expected: &str) -> Option<Verdict> {
     match op {
         "oracle_report" => {
-            let text = format!("ok report: so far the harness-native reference agreed with the full model answer on {} cases (no opinion on {}), {} huge calls judged by the reference only, {} calls inside seq lines, {} implicit A-B-A re-runs, {} value-relation / layout image runs, {} giant runs compared in place",
-                ORACLE_CHECKED.load(Ordering::Relaxed), ORACLE_SILENT.load(Ordering::Relaxed), ORACLE_ONLY.load(Ordering::Relaxed), SEQ_CALLS.load(Ordering::Relaxed), ABA_RERUNS.load(Ordering::Relaxed), IMAGE_RUNS.load(Ordering::Relaxed), GIANT_RUNS.load(Ordering::Relaxed));
+            let text = format!("ok report: so far the harness-native reference agreed with the full model answer on {} cases (no opinion on {}), {} huge calls judged by the reference only, {} calls inside seq lines, {} implicit A-B-A re-runs, {} value-relation / layout image runs ({:.1} s), {} giant runs compared in place ({:.1} s)",
+                ORACLE_CHECKED.load(Ordering::Relaxed), ORACLE_SILENT.load(Ordering::Relaxed), ORACLE_ONLY.load(Ordering::Relaxed), SEQ_CALLS.load(Ordering::Relaxed), ABA_RERUNS.load(Ordering::Relaxed), IMAGE_RUNS.load(Ordering::Relaxed), IMAGE_MS.load(Ordering::Relaxed) as f64 / 1e6, GIANT_RUNS.load(Ordering::Relaxed), GIANT_MS.load(Ordering::Relaxed) as f64 / 1e6);
+            if std::env::var("VERIF_SLOW").is_ok() { eprintln!("{text}"); }
             if expected != "ok report" { return Some(compare_default(text, expected)); }
             // the final report fails when the reference was (almost) never validated although it was relied upon
             if args.first() == Some(&"final") && ORACLE_ONLY.load(Ordering::Relaxed) > 0 && ORACLE_CHECKED.load(Ordering::Relaxed) < 1000 {
@@ -912,6 +932,6 @@ fn nontrivial(op: &str, args: &[&str]) -> bool {
 }
 
 fn main() {
-    harness_main(Spec { prop: "C12", gen, exec, nontrivial, hang_secs: 20,
-        rule: "every shape rank<=4 len<=3 (+ lengths 4-5): flip none / every axis +- / every ordered pair / triples; flipud, fliplr; roll along the flat order for shifts in [-3n,3n] (+ far beyond), along every axis +- for every shift in [-3d,3d] (+ far beyond), 2-element axis/shift lists incl. repeated axes and one shift for two axes; rot90 k=0..7 x every ordered axis pair in several spellings (incl. equal axes); out-of-range axes and malformed lists; seeded random rank 5 len<=4. Robustness streams: sizes (lib big_shapes + matrices with both axes >= 8: square, off by one, far from square, around 256/1024/4096 elements, up to [70,70]/[128,33]/[8,8,8,8]; the same lengths at rank 3-4 in every position; unit axes next to long ones; rank 9; thorough: every [a,b] with 7<=a,b<=17): flip none/every axis/lists, flipud/fliplr, roll flat and per axis for shifts around 0, d/2, d, beyond, lists with one axis under two spellings, rot90 k=0..7 x every ordered axis pair (>= 2000 elements: k=1,2,3 x four pairs), malformed; zero-length shapes (lib zero_shapes + [3,0,2],[1,0,1],[0,3,1],[2,2,0,2]) through every op; arrays holding the zero tag in most positions (f64/f32 image -0.0, compared bit-wise); seeded random rank 2-4 with axis lengths <= 17 (thorough <= 40). EVERY case runs on Array<i64> (the compared answer), on the u8 and f64 (tag 0 = -0.0, bit-wise) images, one small case in three also on i8 / bool / String / f32, each on the plain receiver AND on Ok(array) through the Result-receiver impl, and the i64 call twice; any divergence fails the case. Tag arrays: shape and every element compared.  Part 2: seq lines (calls back to back on one thread: shapes colliding under weak hashes with equal element counts, permuted / regrouped shapes, all axis pairs of one shape, refused-then-valid, A-B-A), n lines (16384..140000 elements, axes above 65536) judged by the harness-native coordinate-formula reference, which is compared with the full model answer on every other case of the run (oracle_report lines); every axis length 1..300 in a non-leading position; shifts / turn counts / axes c+2^8, c+2^16, c+2^32; ranks 5-8 with axis / shift lists of 3-6 entries; implicit A-B-A re-runs in exec. non-trivial = >=2 axes longer than 1 (seq / n lines: some call of the line)" });
+    harness_main(Spec { prop: "C12", gen, exec, nontrivial, hang_secs: 45,
+        rule: "every shape rank<=4 len<=3 (+ lengths 4-5): flip none / every axis +- / every ordered pair / triples; flipud, fliplr; roll along the flat order for shifts in [-3n,3n] (+ far beyond), along every axis +- for every shift in [-3d,3d] (+ far beyond), 2-element axis/shift lists incl. repeated axes and one shift for two axes; rot90 k=0..7 x every ordered axis pair in several spellings (incl. equal axes); out-of-range axes and malformed lists; seeded random rank 5 len<=4. Robustness streams: sizes (lib big_shapes + matrices with both axes >= 8: square, off by one, far from square, around 256/1024/4096 elements, up to [70,70]/[128,33]/[8,8,8,8]; the same lengths at rank 3-4 in every position; unit axes next to long ones; rank 9; thorough: every [a,b] with 7<=a,b<=17): flip none/every axis/lists, flipud/fliplr, roll flat and per axis for shifts around 0, d/2, d, beyond, lists with one axis under two spellings, rot90 k=0..7 x every ordered axis pair (>= 2000 elements: k=1,2,3 x four pairs), malformed; zero-length shapes (lib zero_shapes + [3,0,2],[1,0,1],[0,3,1],[2,2,0,2]) through every op; arrays holding the zero tag in most positions (f64/f32 image -0.0, compared bit-wise); seeded random rank 2-4 with axis lengths <= 17 (thorough <= 40). EVERY case runs on Array<i64> (the compared answer), on the u8 and f64 (tag 0 = -0.0, bit-wise) images, one small case in three also on i8 / bool / String / f32, each on the plain receiver AND on Ok(array) through the Result-receiver impl, and the i64 call twice; any divergence fails the case. Tag arrays: shape and every element compared.  Part 2: seq lines (calls back to back on one thread: shapes colliding under weak hashes with equal element counts, permuted / regrouped shapes, all axis pairs of one shape, refused-then-valid, A-B-A), n lines (16384..140000 elements, axes above 65536) judged by the harness-native coordinate-formula reference, which is compared with the full model answer on every other case of the run (oracle_report lines); every axis length 1..300 in a non-leading position; shifts / turn counts / axes c+2^8, c+2^16, c+2^32; ranks 5-8 with axis / shift lists of 3-6 entries; implicit A-B-A re-runs in exec.  Part 3: n lines on iota:<shape> arrays (2^20 < count <= 2.2*10^6; ranks 1-4 (thorough to 6), first / middle / last axis, extents that are and are not multiples of 64, wide and tall matrices, every operation; a flip / roll is only asked for where the crate's own split cuts into at most 260 blocks) built by the harness and compared in place with the native reference run on the iota tags: i64 tags on the plain receiver + one of u8 on Ok(array) / 12-byte tuples / all-zero f64 of both signs on Ok(array) / 3-byte tuples on Ok(array) / AllEq; v lines (every operation over the small scope, constant / 0-1 / single-odd-element arrays, refused calls) run ALL value-relation images of the tag array (elements all == but not identical: f64, f32, Tuple2<f64,f32>, List<f64> made of 0.0 and -0.0 only, the user types AllEq (== always true) and Label (case-insensitive ==)) and layout images (Tuple3<i32,i32,i32> 12 bytes, Tuple3<u8,u8,u8> 3 bytes, Tuple2<String,i32> 32 bytes) on both receivers; a share of all other cases runs them too (all on one case in 16 up to 100 elements, two of them on one in four; thinner above); shifts ceil(k*2^64/stride)+c along every axis and the flat order, turn counts near 2^62, 2^63, 2^64. non-trivial = >=2 axes longer than 1 (seq / n / v lines: some call of the line)" });
 }
